@@ -158,9 +158,10 @@ func modelsC05(tier string) ([]*PktModel, []int) {
 	max := ^uint64(0)
 	models := []*PktModel{
 		mt3("mt2-small", props, MtScenario{MaxUserTx: 3, Supply: 3, Amounts: []uint64{1, 2, 3, 4}, Receivers: []int{1}, BadReceiver: true}, []string{A, B}),
+		mt3("mt3-two-hops-error-acks", props, MtScenario{MaxUserTx: 2, Supply: 3, Amounts: []uint64{2, 3}, Receivers: []int{1}, BadReceiver: true}, []string{A, B, C}),
 		mt3("mt3-max-supply", props, MtScenario{MaxUserTx: 3, Supply: max, Amounts: []uint64{1, 1 << 63, max - 1, max}, Receivers: []int{1}}, []string{A, B, C}),
 	}
-	depth := []int{8, 7}
+	depth := []int{8, 7, 7}
 	if tier == "thorough" {
 		models = []*PktModel{
 			mt3("mt3-small", props, MtScenario{MaxUserTx: 5, Supply: 3, Amounts: []uint64{1, 2, 3, 4}, Receivers: []int{1, 2}, BadReceiver: true, Relays: true}, []string{A, B, C}),
